@@ -809,7 +809,11 @@ func (vc *VC) callModular(st *State, fi *FuncInfo, si *SpecInfo, recv Val, args 
 		}
 	}
 	touched := vc.touchedObjects(st, si, recv, args)
+	quiet := vc.quietHeaps(st, si, recv, args, true)
 	for _, m := range mods {
+		if quiet[m] {
+			continue // quietunless(cond, heaps...): cond is false at this call, the heap is untouched (frame.quiet.<heap>)
+		}
 		if isLockHeap(m) {
 			continue // callee returns with the lock state it was entered with (lock.balanced)
 		}
@@ -1137,6 +1141,21 @@ func (vc *VC) callFuncValue(st *State, call *ast.CallExpr) Val {
 			if vc.fn.Decl.Recv != nil && len(vc.fn.Decl.Recv.List[0].Names) > 0 {
 				recv = st.vars[vc.fn.Pkg.TypesInfo.ObjectOf(vc.fn.Decl.Recv.List[0].Names[0])]
 			}
+			// extra contract parameters (beyond the callee's signature) denote local variables of the calling
+			// function, bound by name at the call site
+			_, ps, _ := specParamObjs(si)
+			scope := vc.fn.Pkg.Types.Scope().Innermost(call.Pos())
+			for i := len(args); i < len(ps); i++ {
+				var found types.Object
+				if scope != nil {
+					_, found = scope.LookupParent(ps[i].Name(), call.Pos())
+				}
+				v, ok := st.vars[found]
+				if found == nil || !ok {
+					panic(unsupported("fspec %s: no local variable %s at the call site", key, ps[i].Name()))
+				}
+				args = append(args, v)
+			}
 			return vc.callModular(st, nil, si, recv, args, call.Pos(), key)
 		}
 	}
@@ -1358,7 +1377,7 @@ func (vc *VC) touchedObjects(st *State, si *SpecInfo, recv Val, args []Val) map[
 	out := map[string][]string{}
 	has := false
 	for _, c := range si.Clauses {
-		if c.Kind == "touches" {
+		if c.Kind == "touches" || c.Kind == "touchesmap" {
 			has = true
 		}
 	}
@@ -1373,6 +1392,21 @@ func (vc *VC) touchedObjects(st *State, si *SpecInfo, recv Val, args []Val) map[
 		vc.unbind(b)
 	}()
 	for _, c := range si.Clauses {
+		if c.Kind == "touchesmap" {
+			// the map object an expression denotes: its rows of the three map heaps
+			for _, a := range c.Args {
+				mt, ok := vc.typeOf(a).Underlying().(*types.Map)
+				if !ok {
+					panic(unsupported("touchesmap: %s is not a map", exprString(a)))
+				}
+				m := vc.evalScalar(st, a)
+				d, v, l, _, _ := vc.mapHeaps(mt)
+				for _, n := range []string{d, v, l} {
+					out[n] = append(out[n], m.T)
+				}
+			}
+			continue
+		}
 		if c.Kind != "touches" {
 			continue
 		}
@@ -1383,6 +1417,53 @@ func (vc *VC) touchedObjects(st *State, si *SpecInfo, recv Val, args []Val) map[
 			}
 			for _, n := range vc.placeHeapNames(p) {
 				out[n] = append(out[n], p.ref)
+			}
+		}
+	}
+	return out
+}
+
+// quietHeaps: heaps named by quietunless(cond, "heap"...) clauses whose condition is (syntactically) false in
+// the given state. onlyLiteral: at call sites only a literally false condition is used.
+func (vc *VC) quietHeaps(st *State, si *SpecInfo, recv Val, args []Val, onlyLiteral bool) map[string]bool {
+	out := map[string]bool{}
+	has := false
+	for _, c := range si.Clauses {
+		if c.Kind == "quietunless" {
+			has = true
+		}
+	}
+	if !has {
+		return out
+	}
+	b := vc.bindSpec(si, recv, args, nil)
+	saveInfo, saveMode, saveOld := vc.info, vc.specMode, vc.oldState
+	vc.info, vc.specMode, vc.oldState = si.Pkg.TypesInfo, true, st
+	defer func() {
+		vc.info, vc.specMode, vc.oldState = saveInfo, saveMode, saveOld
+		vc.unbind(b)
+	}()
+	for _, c := range si.Clauses {
+		if c.Kind != "quietunless" {
+			continue
+		}
+		// c.Name is empty here: the first argument is the condition, the rest heap names
+		all := append([]ast.Expr{}, c.Args...)
+		if len(all) < 2 {
+			continue
+		}
+		cond := vc.evalBool(st, all[0])
+		if onlyLiteral && cond != "false" {
+			continue
+		}
+		for _, a := range all[1:] {
+			if bl, ok := a.(*ast.BasicLit); ok {
+				n := strings.Trim(bl.Value, "\"`")
+				if onlyLiteral {
+					out[n] = true
+				} else {
+					out[n+"|"+cond] = true
+				}
 			}
 		}
 	}
